@@ -128,6 +128,19 @@ def run(ctx):
         deep_states += r.distinct
         ctx.log("MC (deep) %s: %d generated / %d distinct states in %.0fs" % (c, r.generated, r.distinct, r.wall))
 
+    if ctx.tier == "thorough" and prop in ("C02", "C10", "C19"):
+        # the model's own state invariants, much deeper, with identities hidden by a VIEW
+        for vc in (dict(Max=2, T=INF, Ticks=0, Ops=14, Width=4), dict(Max=1, T=2, Ticks=5, Ops=12, Width=3),
+                   dict(Max=0, T=0, Ticks=4, Ops=12, Width=3), dict(Max=3, T=1, Ticks=4, Ops=11, Width=4)):
+            cfg = "\n".join(["SPECIFICATION VSpec", "CONSTANTS", " M = 16", " W = 3", " Base = 14", " Width = %d" % vc["Width"],
+                             " MaxInFlight = %d" % vc["Max"], " Timeout <- TimeoutDef", " TimeoutP1 = %d" % (vc["T"] + 1), " Inf = %d" % INF,
+                             ' Arith = "serial"', " Types = {1300, 1327, 1320}", " MaxOps = %d" % vc["Ops"], " MaxTicks = %d" % vc["Ticks"],
+                             "VIEW View",
+                             "INVARIANTS BoundAfterPush HeadNotCompleteAfterPush NothingStaleAfterCall EmptyAfterClose OrderMatchesBuf Sorted",
+                             "CHECK_DEADLOCK FALSE"]) + "\n"
+            r = ctx.tlc("reassembler", "MC_ReassemblerView", cfg, workers=core.NCPU, timeout=3000, heap="16g")
+            ctx.log("MC (view) %s: %d generated / %d distinct states" % (vc, r.generated, r.distinct))
+
     lemma = False
     if prop in ("C02", "C03"):
         lemma = core.apalache_lemma(ctx)
